@@ -47,6 +47,8 @@ def scenarios(rep, tier, seed):
         scn["Q"] = scn["Q"] + list(scn["I_train"][:3])
         scns.append(scn)
     scns += S.extreme_unit_scenarios(random.Random(seed * 1000003 + 303), 120 if thorough else 30, nq=6)
+    scns += S.prefile_scenarios(random.Random(seed * 1000003 + 304), 90 if thorough else 24, nq=6)
+    scns += S.mixed_dtype_scenarios(random.Random(seed * 1000003 + 305), 80 if thorough else 20, nq=6)
     return scns
 
 
